@@ -642,8 +642,10 @@ class Function(NameAliasMixin, TokenList):
         for token in parenthesis.tokens:
             if isinstance(token, IdentifierList):
                 return token.get_identifiers()
-            elif imt(token, i=(Function, Identifier, TypedLiteral),
-                     t=T.Literal):
+            elif imt(token, i=(Function, Identifier, TypedLiteral, Operation,
+                               Case, Comparison, Parenthesis),
+                     t=[T.Literal, T.Name.Placeholder, T.Wildcard],
+                     m=(T.Keyword, ('NULL', 'TRUE', 'FALSE'))):
                 result.append(token)
         return result
 
